@@ -190,9 +190,12 @@ CHECKS["C17"] = {
             "any fault the call fails, the named file keeps its previous content or stays absent and only the temp file is "
             "touched; names that are not file: URLs and carry no network location are used verbatim whatever URL syntax they "
             "contain; network locations write nothing; the same protocol over a file system with symbolic links (a link at the "
-            "destination is replaced by the file, what it led to keeps its content: C17_links_exact / _target_kept / _atomic). "
+            "destination is replaced by the file, what it led to keeps its content: C17_links_exact / _target_kept / _atomic); "
+            "and with the temp file on another file system, where shutil.move copies through the links (the named path "
+            "reads as the whole text, the one entry that changed is the file the chain of links ends at, the links stay, a "
+            "failing step or an endless chain leaves all but the temp entry alone: C17_xdev_exact / _link_kept / _atomic). "
             "Tie: the model's destination path vs the file actually written for "
-            "every name; the tree left for destinations that are symbolic links vs the model's; faults injected from outside (k-th write call, the move) with and without a pre-existing file "
+            "every name; the tree left for destinations that are symbolic links (temp directory on the same and on another file system) vs the model's; faults injected from outside (k-th write call, the move) with and without a pre-existing file "
             "(partial: atomicity of os.rename is assumed).",
     "design_ref": "DESIGN.md §5 C17, §10",
     "technique": "Coq proof over a file-system step model + fault injection with unittest.mock on the implementation",
